@@ -271,13 +271,32 @@ def run_case(case):
         for b in range(4):
             one = run(jnp.asarray(u0s[b]), jnp.asarray(lams[b]))
             steps.append(int(np.asarray(one[2])[-1]))
+            sens_b = {}
+
+            def sens_of(name, j, b=b, one=one, sens_b=sens_b):
+                """Rounding amplification of this member: the same (unbatched) solve with u0 moved by one unit roundoff."""
+                if "run" not in sens_b:
+                    sens_b["run"] = run(jnp.asarray(u0s[b] * (1.0 + np.asarray([1.0, -1.0]) * 2.0**-52)), jnp.asarray(lams[b]))
+                    obs["conditioning_measured"] = obs.get("conditioning_measured", 0) + 1
+                pert = sens_b["run"]
+                if not np.array_equal(np.asarray(pert[2]), np.asarray(one[2])):
+                    return 0.0
+                vp, vo = np.asarray(pert[0 if name == "mean" else 1][j]), np.asarray(one[0 if name == "mean" else 1][j])
+                val = float(np.max(np.abs(vp - vo) / (np.abs(vo) + 1e-9 * (1 + np.max(np.abs(vo))))))
+                obs["max_measured_sensitivity"] = max(obs.get("max_measured_sensitivity", 0.0), val)
+                return val
+
             for name, xa, xb in (("mean", batched[0], one[0]), ("std", batched[1], one[1])):
                 for j in range(4):
                     va, vb = np.asarray(xa[j][b]), np.asarray(xb[j])
                     if not np.all(np.isfinite(va)):
                         viols.append(util.viol("vmap_finite", f"batch member {b}: non-finite {name}", tags=tags))
                         break
-                    note("vmap_vs_loop_" + name, float(np.max(np.abs(va - vb) / (np.abs(vb) + 1e-9 * (1 + np.max(np.abs(vb)))))), tol=1e-8 if name == "mean" else 1e-6)
+                    dev = float(np.max(np.abs(va - vb) / (np.abs(vb) + 1e-9 * (1 + np.max(np.abs(vb))))))
+                    tol_v = 1e-8 if name == "mean" else 1e-6
+                    if dev > tol_v:
+                        tol_v = tol_v + 20.0 * sens_of(name, j)
+                    note("vmap_vs_loop_" + name, dev, tol=tol_v)
             if not np.array_equal(np.asarray(batched[2][b]), np.asarray(one[2])):
                 viols.append(util.viol("vmap_vs_loop_steps", f"batch member {b}: step counts {np.asarray(batched[2][b]).tolist()} vs {np.asarray(one[2]).tolist()}", tags=tags))
             if not np.allclose(np.asarray(batched[4][b]), save_at, atol=1e-8, rtol=0):
